@@ -580,24 +580,13 @@ rule("C07")(_r08_7)
 # ------------------------------------------------------------------------------------------- composite format predicates
 
 
-@rule("C07")
-def r07_9_offset_general_predicates(ctx: Ctx) -> RuleResult:
-    """The general Offset patterns (g / i) format with the shortest of three patterns; the predicate that selects a pattern without
-    a seconds (minutes) field must imply that the seconds (minutes and seconds) of the offset are zero, or that component is
-    silently dropped and the text parses back to another offset.
-    Decided per (pattern, predicate) pair of each CompositePatternBuilder call: the finest field of the pattern text (read from
-    the resource table) gives the required divisor m of offset.seconds; the predicate is accepted by form (`<mod>(offset.<unit>, C)
-    == 0` with C a multiple of m in that unit), otherwise it is evaluated by the abstract interpreter on exact offsets and a
-    definite counterexample (predicate true, seconds not divisible) is a violation; no counterexample on the sample leaves the
-    pair undecided (reported, not a proof)."""
-    from ..absint import Iv, Obj
-    from ..oblig import interp
-
-    rr = RuleResult("R07.9", "general Offset patterns: a predicate that selects a pattern without seconds / minutes implies those components are zero", min_instances=6)
+def offset_composites(ctx: Ctx):
+    """The CompositePatternBuilder calls of the Offset parser: [(function, call, [(pattern texts, predicate expr, pattern expr)])].
+    A pattern argument that is a parameter of a private helper is followed to the arguments of the helper's call sites in the
+    same class (the composite may have been moved into a helper that is given the three pattern texts)."""
     M = ctx.M
     par = M.cls("_OffsetPatternParser")
     fi = M.cls("_PyodaFormatInfo")
-    unit = {"seconds": 1, "milliseconds": 1000, "ticks": 10_000_000, "nanoseconds": 1_000_000_000}
 
     def pattern_text(prop: str) -> str | None:
         g = M.find_method(fi, prop)
@@ -615,6 +604,29 @@ def r07_9_offset_general_predicates(ctx: Ctx) -> RuleResult:
                                         return v.value
         return None
 
+    def props_of(e: ast.expr, f, seen: frozenset = frozenset()) -> set[str]:
+        direct = {a.attr for a in ast.walk(e) if isinstance(a, ast.Attribute) and a.attr.startswith("offset_pattern_")}
+        if direct:
+            return direct
+        out: set[str] = set()
+        pnames = [p.arg for p in f.value_params]
+        for n in ast.walk(e):
+            if isinstance(n, ast.Name) and n.id in pnames and (f.qual, n.id) not in seen and len(seen) < 6:
+                for g in par.all_defs:
+                    if isinstance(g.node, ast.Lambda):
+                        continue
+                    for c in own_nodes(g.node):
+                        if isinstance(c, ast.Call):
+                            tg, how = ctx.R.callees(c, g, count=False)
+                            if how == "resolved" and f in tg:
+                                from ..kit import bind_args
+
+                                a = bind_args(c, f).get(n.id)
+                                if a is not None:
+                                    out |= props_of(a, g, seen | {(f.qual, n.id)})
+        return out
+
+    res = []
     for f in par.all_defs:
         if isinstance(f.node, ast.Lambda):
             continue
@@ -624,17 +636,52 @@ def r07_9_offset_general_predicates(ctx: Ctx) -> RuleResult:
             kw = {k.arg: k.value for k in c.keywords}
             pats, preds = kw.get("patterns"), kw.get("format_predicates")
             if not (isinstance(pats, ast.List) and isinstance(preds, ast.List) and len(pats.elts) == len(preds.elts)):
+                res.append((f, c, None))
+                continue
+            rows = []
+            for pe, qe in zip(pats.elts, preds.elts):
+                texts = {pattern_text(p) for p in props_of(pe, f)}
+                rows.append((texts, qe, pe))
+            res.append((f, c, rows))
+    return res
+
+
+@rule("C07")
+def r07_9_offset_general_predicates(ctx: Ctx) -> RuleResult:
+    """The general Offset patterns (g / i) format with the shortest of three patterns; the predicate that selects a pattern without
+    a seconds (minutes) field must imply that the seconds (minutes and seconds) of the offset are zero, or that component is
+    silently dropped and the text parses back to another offset.
+    Decided per (pattern, predicate) pair of each CompositePatternBuilder call: the finest field of the pattern text (read from
+    the resource table) gives the required divisor m of offset.seconds; the predicate is accepted by form (`<mod>(offset.<unit>, C)
+    == 0` with C a multiple of m in that unit), otherwise it is evaluated by the abstract interpreter on exact offsets and a
+    definite counterexample (predicate true, seconds not divisible) is a violation; no counterexample on the sample leaves the
+    pair undecided (reported, not a proof)."""
+    from ..absint import Iv, Obj
+    from ..oblig import interp
+
+    rr = RuleResult("R07.9", "general Offset patterns: a predicate that selects a pattern without seconds / minutes implies those components are zero", min_instances=3)
+    M = ctx.M
+    par = M.cls("_OffsetPatternParser")
+    fi = M.cls("_PyodaFormatInfo")
+    unit = {"seconds": 1, "milliseconds": 1000, "ticks": 10_000_000, "nanoseconds": 1_000_000_000}
+
+    for f, c, rows in offset_composites(ctx):
+        if True:
+            if rows is None:
                 rr.inst()
                 rr.fail(f.qual, "CompositePatternBuilder call without matching literal pattern / predicate lists", ctx.loc(f, c))
                 continue
-            for pe, qe in zip(pats.elts, preds.elts):
+            for texts, qe, pe in rows:
                 rr.inst()
-                prop = next((a.attr for a in ast.walk(pe) if isinstance(a, ast.Attribute) and a.attr.startswith("offset_pattern_")), None)
-                text = pattern_text(prop) if prop else None
-                if text is None:
+                if not texts or None in texts:
                     rr.fail(f.qual, f"pattern text of `{unparse(pe)[:60]}` not found in the resource table", ctx.loc(f, pe))
                     continue
-                m = 1 if "s" in text else 60 if "m" in text else 3600
+                ms = {1 if "s" in t else 60 if "m" in t else 3600 for t in texts}
+                if len(ms) != 1:
+                    rr.fail(f.qual, f"`{unparse(pe)[:60]}` stands for patterns of different precision at its call sites: {sorted(texts)}", ctx.loc(f, pe))
+                    continue
+                m = ms.pop()
+                text = "/".join(sorted(texts))
                 # the predicate
                 if isinstance(qe, ast.Lambda):
                     always = isinstance(qe.body, ast.Constant) and qe.body.value is True
